@@ -82,6 +82,14 @@ Theorem C02_value_independent_of_declared_lengths : forall o (t t' : list item) 
   exists m', parse_with o (map inj t') = Ok (v, m') /\ length m' = length m.
 Proof. exact parse_value_independent_of_lengths. Qed.
 
+(* static tie: Fragment::parse_in of value.rs (white space, dispatch on the first character, how each sub-parser's result
+   becomes a value or a Begin.. fragment), EXECUTED by the translator from the source in each context under the strict and
+   the flexible record -- its sub-parsers being the functions of null.rs, boolean.rs, number.rs, string.rs, array.rs and
+   object.rs run from their own files -- returns what Parser.parse_fragment returns on the same inputs *)
+Theorem C02_fragment_from_source :
+  src_leaf_fragment = ct_fragment_on src_leaf_fragment /\ (2000 <=? length src_leaf_fragment)%nat = true.
+Proof. exact ConstsTie.fragment_from_source. Qed.
+
 (* static tie (DESIGN.md section 4, "Translator tie for constant tables"): the two-character escapes that the arms of
    `match parser.next_char()?` after a backslash in SmallString::parse_in denote -- evaluated from the source on every
    run -- are the characters the parser model returns for "\X", X ranging over char_domain *)
@@ -100,4 +108,5 @@ Print Assumptions C02_literals.
 Print Assumptions C02_lookup.
 Print Assumptions C02_example.
 Print Assumptions C02_escapes_from_source.
+Print Assumptions C02_fragment_from_source.
 Print Assumptions C02_value_independent_of_declared_lengths.
